@@ -3,7 +3,8 @@
    calendar algorithms, transcribed); Model/DayTime.v (binary64, hand-written). *)
 From Coq Require Import ZArith List.
 From PV Require Import Lib.Py Lib.PyDate Proofs.C17Cal Proofs.C17Base Proofs.C17 Model.DayTime.
-From PV Require Import Proofs.C17Carry Proofs.C17Months.
+From PV Require Import Proofs.C17Carry Proofs.C17Months Proofs.C17Total Proofs.C17Yearfrac Model.DateFuncs.
+From PV Require Gen.excelutil.
 From PV Require Proofs.C17Sweep.All.
 From PV Require Gen.date_time.
 Import ListNotations.
@@ -129,3 +130,48 @@ Theorem C17_edate_compose : forall n a b y m d, 60 < n <= 2958465 ->
     /\ date_time.f_edate (VInt n) (VInt (a + b)) = Ok (VInt n2).
 Proof. exact edate_compose. Qed.
 Print Assumptions C17_edate_compose.
+
+(* NEVER AN EXCEPTION (partial: bounded month/day/shift; beyond the bounds the
+   model does raise — TypeError from is_leap_year(year <= 0), or the recursion
+   budget — Refuted/C17_date_exceptions.v).  [date_value v]: v is #NUM!, the float
+   60.0 (1900-02-29) or a serial day 0..2958465.  Through the decorator wrappers
+   (Model/DateFuncs.v X_date, X_edate, X_eomonth):
+   DATE of ANY integer year, any month >= -11000 and any day in -25000..25000, and
+   EDATE / EOMONTH of ANY integer serial number and any shift >= -10000, return a value. *)
+Theorem C17_date_total_partial :
+  (forall y m d, -11000 <= m -> -25000 <= d <= 25000 ->
+     exists v, X_date [VInt y; VInt m; VInt d] = Ok v /\ date_value v)
+  /\ (forall n k, -10000 <= k ->
+        (exists v, X_eomonth [VInt n; VInt k] = Ok v /\ num_or_int v)
+        /\ (exists v, X_edate [VInt n; VInt k] = Ok v /\ date_value v)).
+Proof. exact wrapped_total. Qed.
+Print Assumptions C17_date_total_partial.
+
+(* for a day 1..28 DATE is decided for ALL integer years and months: TypeError
+   exactly when the normalised month is February of a normalised year <= 0
+   (yadj: years below 1900 are read as 1900 + year), else a value *)
+Theorem C17_date_small_day : forall y m d, 1 <= d <= 28 ->
+  if (0 <=? y) && (y <=? 9999) && (nmonth m =? 2) && (nyear (yadj y) m <=? 0)
+  then date_time.f_date (VInt y) (VInt m) (VInt d) = Raise TypeError
+  else exists v, date_time.f_date (VInt y) (VInt m) (VInt d) = Ok v /\ date_value v.
+Proof. exact date_small_day. Qed.
+Print Assumptions C17_date_small_day.
+
+(* YEAR / MONTH / DAY / WEEKDAY (wrapped) of EVERY integer: numbers of the right
+   range on 0..2958465, #NUM! everywhere else *)
+Theorem C17_serial_total : forall n,
+  (0 <= n <= 2958465 ->
+     exists y m d w, X_year [VInt n] = Ok (VInt y) /\ X_month [VInt n] = Ok (VInt m)
+       /\ X_day [VInt n] = Ok (VInt d) /\ X_weekday [VInt n] = Ok (VInt w)
+       /\ 1900 <= y <= 9999 /\ 1 <= m <= 12 /\ 0 <= d <= 31 /\ 1 <= w <= 7)
+  /\ (~ 0 <= n <= 2958465 ->
+     X_year [VInt n] = Ok excelutil.c_NUM_ERROR /\ X_month [VInt n] = Ok excelutil.c_NUM_ERROR
+     /\ X_day [VInt n] = Ok excelutil.c_NUM_ERROR /\ X_weekday [VInt n] = Ok excelutil.c_NUM_ERROR).
+Proof. exact serial_total. Qed.
+Print Assumptions C17_serial_total.
+
+(* YEARFRAC is symmetric in its dates: all integer dates, every basis value *)
+Theorem C17_yearfrac_symmetric : forall a b basis,
+  date_time.f_yearfrac (VInt a) (VInt b) basis = date_time.f_yearfrac (VInt b) (VInt a) basis.
+Proof. exact yearfrac_symmetric. Qed.
+Print Assumptions C17_yearfrac_symmetric.
